@@ -46,6 +46,7 @@ class World(object):
     def __init__(self, world='LIVE'):
         self.world = world
         self.journal = []       # ('body', 'in'|'out', decl index, world, sid, args-copy)
+        self.outcalls = []      # (output decl index, args, kwargs) journalled at the call site, copies
         self.sites = {}         # sid -> ('v', value) | ('e', exception)
         self.body_out = {}      # sid -> ('v', obj) | ('e', exc)  what the body itself produced (identity)
         self.tl = threading.local()
@@ -250,7 +251,10 @@ def build_class(prog, rec, W, decorated=True):
                 else:
                     v = getattr(inst, 'in%d' % s['i'])(V.build(s['a']), V.build(s['b']))
             else:
-                v = getattr(inst, 'out%d' % s['i'])(V.build(s['a']), **dict((k, V.build(x)) for k, x in s.get('kw', [])))
+                oargs = tuple(V.build(x) for x in ([s['a']] + list(s.get('more', []))))[s.get('skip_first', 0):]
+                okw = dict((k, V.build(x)) for k, x in s.get('kw', []))
+                W.outcalls.append((s['i'], copy.deepcopy(oargs), copy.deepcopy(okw)))
+                v = getattr(inst, 'out%d' % s['i'])(*oargs, **okw)
             W.sites[s['sid']] = ('v', v)
             return ('v', s['sid'], copy.deepcopy(v))
         except Exception as e:  # pylint: disable=broad-except
@@ -521,7 +525,9 @@ def in_step(draw, ins, values, behs=('ret', 'ret', 'ret', 'raise', 'nested')):
 def out_step(draw, outs, values, behs=('ret', 'ret', 'ret', 'raise'), only=None):
     i = only if only is not None else draw(st.integers(0, len(outs) - 1))
     kw = draw(st.lists(st.tuples(st.sampled_from(['p', 'q']), values), max_size=2, unique_by=lambda kv: kv[0]))
-    return dict(t='out', i=i, a=draw(values), kw=[list(x) for x in kw], beh=draw(st.sampled_from(behs)),
+    more = draw(st.one_of(st.just([]), st.just([]), st.lists(values, max_size=2)))
+    return dict(t='out', i=i, a=draw(values), more=more, skip_first=draw(st.sampled_from([0, 0, 0, 0, 1])),
+                kw=[list(x) for x in kw], beh=draw(st.sampled_from(behs)),
                 ret=draw(values), exc=draw(st.sampled_from(['Err2', 'Err2', 'ValueError'])))
 
 
